@@ -169,24 +169,25 @@ class DeviceSub(Sub):
                 exp.append((ev["samples"][(k + 1) * ws - 1][0], w))
         strobes = [t for t, o in enumerate(trace) if o.wc]
         multi = any(len(ev["words"]) >= 2 for ev in events)
+        nonpow2 = bool(ws & (ws - 1))
+        firsts = {ev["samples"][ws - 1][0] for ev in events if ev["words"]}
+        DEFECT = "nonpow2-words-after-first-misframed"
         for n, (e, w) in enumerate(exp):
             nxt = exp[n + 1][0] if n + 1 < len(exp) else len(trace) - 1
             got = [t for t in strobes if e < t <= nxt]
+            later = e not in firsts            # not the first word of its CS assertion
             if len(got) != 1:
-                # classify: is this word not the first of its CS assertion?
-                first = any(ev["words"] and ev["samples"][ws - 1][0] == e for ev in events)
                 sig = "word-not-reported" if not got else "word-reported-twice"
-                if not first and ws & (ws - 1):
-                    sig += "-after-first-nonpow2"
-                elif not first:
-                    sig += "-after-first"
+                if later:
+                    sig = DEFECT if nonpow2 else sig + "-after-first"
                 return fail(f"{cfg}: word #{n} (0x{w:x}) completed by the host's sample edge in cycle {e} was "
                             f"reported {len(got)} times in cycles ({e},{nxt}] (strobes at {strobes})", signature=sig)
             if trace[got[0]].wi != w:
+                sig = DEFECT if (later and nonpow2) else "wrong-word-in"
                 return fail(f"{cfg}: word #{n}: word_in=0x{trace[got[0]].wi:x} at strobe cycle {got[0]}, host sent "
-                            f"0x{w:x}", signature="wrong-word-in")
+                            f"0x{w:x}", signature=sig)
         if len(strobes) != len(exp):
-            sig = "spurious-word-complete"
+            sig = DEFECT if (nonpow2 and multi) else "spurious-word-complete"
             return fail(f"{cfg}: {len(strobes)} word_complete cycles for {len(exp)} complete words "
                         f"(strobes {strobes}, word ends {[e for e, _ in exp]})", signature=sig)
 
@@ -199,8 +200,8 @@ class DeviceSub(Sub):
                     want = (w >> (ws - 1 - j)) & 1 if msb else (w >> j) & 1
                     if trace[t].sdo != want:
                         sig = "wrong-sdo-first-word" if k == 0 else "wrong-sdo-later-word"
-                        if k and ws & (ws - 1):
-                            sig += "-nonpow2"
+                        if k and nonpow2:
+                            sig = DEFECT
                         return fail(f"{cfg}: SDO={trace[t].sdo} at host sample edge cycle {t} (word {k} bit {j} of "
                                     f"presented word 0x{w:x}), expected {want}", signature=sig)
 
